@@ -20,7 +20,8 @@ section lift
 variable {P : Pool → Prop} (hinit : ∀ pid, P { pid := pid }) (huse : ∀ p u, isRtUse u = true → P p → P (ClonePool.use p u))
 include huse
 
-theorem AllPools.onCurrent {s : Rt} (h : AllPools P s) (u : Use) (hu : isRtUse u = true) : AllPools P (onCurrent s u) := by
+theorem AllPools.onCurrent {s : Rt} (h : AllPools P s) (u : Use) (hu : isRtUse u = true) (d : Nat) :
+    AllPools P (onCurrent s u d) := by
   unfold GcRuntime.onCurrent
   split
   · exact h
@@ -49,7 +50,7 @@ theorem AllPools.prim {s : Rt} (h : AllPools P s) (e : Prim) : AllPools P (prim 
         · exact h
         · split
           · intro q hq; exact h q hq
-          · exact h.onCurrent huse _ rfl
+          · exact h.onCurrent huse _ rfl _
     | fire o =>
       intro q hq
       unfold AllPools Rt.pools at h
@@ -58,7 +59,7 @@ theorem AllPools.prim {s : Rt} (h : AllPools P s) (e : Prim) : AllPools P (prim 
       rcases hq with ⟨p, hp, rfl⟩ | ⟨p, hp, rfl⟩
       · exact huse p _ rfl (h p (by simp [hp]))
       · exact huse p _ rfl (h p (by simp [hp]))
-    | step => exact h.onCurrent huse _ rfl
+    | step => exact h.onCurrent huse _ rfl _
     | push =>
       intro q hq
       unfold AllPools Rt.pools at h
@@ -68,25 +69,40 @@ theorem AllPools.prim {s : Rt} (h : AllPools P s) (e : Prim) : AllPools P (prim 
       · exact hinit _
       · exact h q (by simp [hq])
       · exact h q (by simp [hq])
-    | finAll => exact h.onCurrent huse _ rfl
+    | finAll => exact h.onCurrent huse _ rfl _
     | popRel =>
-      have h1 := h.onCurrent huse Use.popRel rfl
+      have h1 := h.onCurrent huse Use.popRel rfl (List.dropWhile (fun b => b == false) s.frames).length
       simp only
+      generalize GcRuntime.onCurrent s Use.popRel (List.dropWhile (fun b => b == false) s.frames).length = s1 at h1
       split
       · rename_i p q rest hl
+        have hl' : s1.live = p :: q :: rest := hl
         intro x hx
         unfold AllPools Rt.pools at h1
         unfold Rt.pools at hx
         simp only [List.cons_append, List.mem_cons, List.mem_append] at hx
         apply h1 x
-        rw [hl]
+        rw [hl']
         simp only [List.cons_append, List.mem_cons, List.mem_append]
         rcases hx with rfl | hx | rfl | hx
         · right; left; rfl
         · right; right; left; exact hx
         · left; rfl
         · right; right; right; exact hx
-      · exact h1
+      · intro x hx; exact h1 x hx
+    | pushShare => intro x hx; exact h x hx
+    | popShare =>
+      simp only
+      split
+      · intro x hx; exact h x hx
+      · exact h
+    | setRaise k =>
+      simp only
+      split
+      · split
+        · intro x hx; exact h x hx
+        · exact h
+      · exact h
 
 theorem AllPools.closeN {s : Rt} (h : AllPools P s) (n : Nat) : AllPools P (closeN n s) := by
   induction n generalizing s with
@@ -96,6 +112,7 @@ theorem AllPools.closeN {s : Rt} (h : AllPools P s) (n : Nat) : AllPools P (clos
 theorem AllPools.rstep {s : Rt} (h : AllPools P s) (e : REv) : AllPools P (rstep s e) := by
   cases e with
   | prim e => exact h.prim hinit huse e
+  | pushCtx d => exact h.prim hinit huse _
   | callDone => exact (h.prim hinit huse _).prim hinit huse _
   | callKilled => exact h.prim hinit huse _
   | close => exact h.closeN hinit huse _
